@@ -970,3 +970,28 @@ Proof.
     apply negb_true_iff in Hc. exact Hc. }
   apply lead_empty_dedent; [exact H|]. unfold leading_ws_fit in Hfit. fold lines in Hfit. exact Hfit.
 Qed.
+
+(* a parse error of an inherited docstring is reported for the object that DEFINES the docstring: its file, its
+   docstring line; once, however many overriding objects inherit the docstring *)
+Lemma inherited_reported_at_source : forall v st pe o1 o2 source d z,
+  -1 <= v <= 100 -> o_docstring_lineno source <> 0 -> 0 <= z ->
+  existsb (text_eqb (o_fullname source)) (pe_lookup sec_docstring pe) = false ->
+  let r1 := parse_docstring_report v st pe o1 source [{| pe_descr := d; pe_stored := Some z |}] sec_docstring in
+  let r2 := parse_docstring_report v (fst r1) (snd r1) o2 source [{| pe_descr := d; pe_stored := Some z |}] sec_docstring in
+  printed (fst r1) = printed st ++ [report_text (o_description source) (Num (o_docstring_lineno source + z))
+                                               (bad_prefix sec_docstring ++ d)] /\
+  r2 = r1.
+Proof.
+  intros v st pe o1 o2 source d z Hv Hds Hz Hnew r1 r2. split.
+  - unfold r1, parse_docstring_report.
+    exact (proj2 (proj2 (reports_print v st source d z Hv Hds)) pe d z Hz Hnew).
+  - unfold r2, r1, parse_docstring_report, report_errors. rewrite Hnew. cbn [fst snd].
+    assert (H : existsb (text_eqb (o_fullname source)) (pe_lookup sec_docstring (pe_add sec_docstring (o_fullname source) pe)) = true).
+    { clear. induction pe as [|[s names] pe IH]; cbn [pe_add pe_lookup].
+      - change (text_eqb sec_docstring sec_docstring) with true. cbn [existsb].
+        rewrite (proj2 (text_eqb_eq _ _) eq_refl). reflexivity.
+      - destruct (text_eqb s sec_docstring) eqn:E; cbn [pe_lookup]; rewrite E.
+        + rewrite existsb_app. cbn [existsb]. rewrite (proj2 (text_eqb_eq _ _) eq_refl). rewrite orb_true_r. reflexivity.
+        + exact IH. }
+    rewrite H. reflexivity.
+Qed.
